@@ -41,6 +41,10 @@ var checkGuardedDeleteQ = pattern.MustParse(`
 
 func run(pass *analysis.Pass) (any, error) {
 	for node, m := range code.Matches(pass, checkGuardedDeleteQ) {
+		if code.MayHaveSideEffects(pass, m.State["m"].(ast.Expr), nil) || code.MayHaveSideEffects(pass, m.State["key"].(ast.Expr), nil) {
+			// the guard evaluates the map and the key a second time
+			continue
+		}
 		report.Report(pass, node, "unnecessary guard around call to delete",
 			report.ShortRange(),
 			report.FilterGenerated(),
